@@ -3,6 +3,7 @@ use serde_json::json;
 use std::collections::BTreeSet;
 use vh_common::Report;
 use vh_common::report::Violations;
+use vh_seq::emfx::gen_::{TS_BIG_NS, s};
 use vh_seq::emfx::layers::{layers, walk};
 use vh_seq::emfx::reference::*;
 use vh_seq::emfx::*;
@@ -193,6 +194,31 @@ fn main() {
         }
         states.push(st);
     }
+    // every character that needs (or nearly needs) escaping ALONE in a string: as a property
+    // value, as a per-metric dimension value and inside a property name
+    let mut single_char_cases = 0u64;
+    {
+        let mut st = St::default();
+        let scfgs = [CfgD::simple(Ctor::NoValidations), CfgD::simple(Ctor::AllValidations)];
+        let ps: Vec<Emf> = scfgs.iter().map(|c| c.build()).collect();
+        let mut chars: Vec<char> = (0u32..=0x20).filter_map(char::from_u32).collect();
+        chars.extend(['"', '\\', '/', '\u{7f}', '\u{80}', '\u{9f}', '\u{a0}', 'é', '\u{2028}', '\u{2029}', '\u{feff}', '\u{fffd}', '\u{ffff}', '\u{10000}', '😀', '\u{10ffff}']);
+        for (cfg, p) in scfgs.iter().zip(&ps) {
+            for c in &chars {
+                let text = c.to_string();
+                let entry = EntryD { ops: vec![
+                    OpD::Config(ConfD::Split),
+                    OpD::Timestamp(TS_BIG_NS),
+                    OpD::Value(s("P"), ValD::Str(text.clone())),
+                    OpD::Value(format!("n{c}"), ValD::Str(s("v"))),
+                    OpD::Value(s("M"), ValD::Metric { obs: vec![Obs::U(1)], unit: UnitD::None, dims: vec![(s("k"), text.clone())], flag: FlagD::None }),
+                ]};
+                check(&mut st, cfg, p, &entry);
+                single_char_cases += 1;
+            }
+        }
+        states.push(st);
+    }
     let mut shapes = BTreeSet::new();
     let (mut cases, mut compared, mut records, mut ood) = (0, 0, 0, 0);
     let mut reused_total = 0u64;
@@ -217,6 +243,7 @@ fn main() {
     rep.set("distinct_nontrivial", shapes.len() as u64);
     rep.set("rule", "complete cross products of the alphabets in emfx/gen_.rs (layers A1,A2,B,C) restricted to the documented domain; every accepted output is parsed by the strict parser and compared, as a multiset of records, with an independent reference interpretation (emfx/reference.rs::expected_records); distinct = distinct expected-record shapes (records, dimension sets, definitions, per-member kind/counts)");
     rep.set("scaled_entry_cases", scaled_cases);
+    rep.set("single_special_character_cases", single_char_cases);
     rep.set("exhaustive", true);
     rep.set("layers", ls.iter().map(|l| json!({"layer": l.name, "cases": l.size()})).collect::<Vec<_>>());
     rep.assume("number equality: integer observations by exact lexeme, floating ones by f64 round trip of the lexeme");
